@@ -154,3 +154,4 @@ func verifC08Ambiguous(N int) {
 
 func VerifHarness_C08_Ambiguous_2() { verifC08Ambiguous(2) }
 func VerifHarness_C08_Ambiguous_3() { verifC08Ambiguous(3) }
+func VerifHarness_C08_Ambiguous_5() { verifC08Ambiguous(5) }
